@@ -59,7 +59,7 @@ type C02Step struct {
 	Op    string  `json:"op"` // "slice", "T", "narrow"
 	Specs []SpecJ `json:"specs,omitempty"`
 	Perm  []int   `json:"perm,omitempty"`
-	Via   string  `json:"via,omitempty"` // "RS" | "S" | "pkg" (tensor.Narrow) | "method"
+	Via   string  `json:"via,omitempty"`  // "RS" | "S" | "pkg" (tensor.Narrow) | "method"
 	Into  string  `json:"into,omitempty"` // "" (Slice) | "fresh" | "view" | "self": destination of SliceInto
 	Dim   int     `json:"dim,omitempty"`
 	Start int     `json:"start,omitempty"`
